@@ -365,10 +365,14 @@ struct GenericJob {
     /// > 0: the first `staged` interactions are given first (heat bath on, a few steps), the rest after the
     /// heat bath was switched off; then the option is switched on again
     staged: usize,
+    /// precision job: run `scale` times longer and judge with this absolute slack instead of 0.02
+    scale: usize,
+    slack: f64,
 }
 
 fn run_generic_job(j: &GenericJob, nsteps: usize, seed_xor: u64) -> Outcome {
-    let warm = nsteps / 10;
+    let nsteps = nsteps * j.scale;
+    let warm = (nsteps / 10).min(100_000);
     let seed = j.seed ^ seed_xor;
     let mut hard = false;
     let spec = &j.spec;
@@ -380,7 +384,10 @@ fn run_generic_job(j: &GenericJob, nsteps: usize, seed_xor: u64) -> Outcome {
         "interactions_given_first": if j.staged > 0 { json!(j.staged) } else { json!("all") }});
     let mut failures = vec![];
     let r = catch_unwind(AssertUnwindSafe(|| {
-        let mut q = if j.staged > 0 { spec.build_staged(TapeRng::new(seed), j.staged, 20, beta).unwrap() } else { spec.build(TapeRng::new(seed)).unwrap() };
+        // (a non-logging generator: long statistical runs must not accumulate the word log)
+        let mut tape = TapeRng::new(seed);
+        tape.logging = false;
+        let mut q = if j.staged > 0 { spec.build_staged(tape, j.staged, 20, beta).unwrap() } else { spec.build(tape).unwrap() };
         let mut st = Stats::new(1 + n, nsteps);
         for t in 0..(warm + nsteps) {
             q.timestep(beta);
@@ -403,11 +410,11 @@ fn run_generic_job(j: &GenericJob, nsteps: usize, seed_xor: u64) -> Outcome {
         }
         Ok(me) => {
             let mut bad = vec![];
-            if let Some(m) = judge("energy", me[0].0, me[0].1, ex.energy, 0.02) {
+            if let Some(m) = judge("energy", me[0].0, me[0].1, ex.energy, j.slack) {
                 bad.push(m);
             }
             for i in 0..n {
-                if let Some(m) = judge(&format!("<s_{}>", i), me[1 + i].0, me[1 + i].1, ex.mag[i], 0.02) {
+                if let Some(m) = judge(&format!("<s_{}>", i), me[1 + i].0, me[1 + i].1, ex.mag[i], j.slack) {
                     bad.push(m);
                 }
             }
@@ -591,7 +598,7 @@ pub fn run(args: &Args) -> Value {
         for beta in [1.0, 0.5] {
             let seed = rng.next();
             if wanted(prop) {
-                generic_jobs.push(GenericJob { prop, key, spec: spec.clone(), beta, seed, staged: 0 });
+                generic_jobs.push(GenericJob { prop, key, spec: spec.clone(), beta, seed, staged: 0, scale: 1, slack: 0.02 });
             }
         }
     }
@@ -601,7 +608,7 @@ pub fn run(args: &Args) -> Value {
             state: vec![true, false], loops: false, hb: true };
         let seed = rng.next();
         if wanted("C02") || wanted("C04") {
-            generic_jobs.push(GenericJob { prop: "C02,C04", key: None, spec, beta, seed, staged: m });
+            generic_jobs.push(GenericJob { prop: "C02,C04", key: None, spec, beta, seed, staged: m, scale: 1, slack: 0.02 });
         }
     }
     // ---------------- tempering (C05): every rung at its own thermal distribution, serial and rayon drivers
@@ -636,6 +643,14 @@ pub fn run(args: &Args) -> Value {
         }
     }
     let mut outcomes: Vec<Outcome> = ising_jobs.par_iter().map(|j| confirmed(|n, x| run_ising_job(j, n, x), nsteps)).collect();
+    // precision job (thorough tier): interactions of MIXED ARITY with loop updates - a loop start that is not uniform over
+    // all legs biases the probabilities by a few 10^-3 (defect repaired by 88da00a); 60 times the usual run length, slack 0.001
+    if args.thorough && wanted("C04") {
+        let spec = QmcSpec { nvars: 2, bonds: vec![BondSpec { kind: 0, mat: vec![0.5, 0.0, 0.0, 0.0, 0.0, 1.0, 1.5, 0.0, 0.0, 1.5, 1.0, 0.0, 0.0, 0.0, 0.0, 0.5], vars: vec![0, 1] },
+            BondSpec { kind: 0, mat: vec![3.0, 0.0, 0.0, 0.25], vars: vec![0] }], state: vec![true, false], loops: true, hb: false };
+        let seed = rng.next();
+        generic_jobs.push(GenericJob { prop: "C04", key: None, spec, beta: 1.0, seed, staged: 0, scale: 60, slack: 0.001 });
+    }
     outcomes.extend(generic_jobs.par_iter().map(|j| confirmed(|n, x| run_generic_job(j, n, x), nsteps)).collect::<Vec<_>>());
     outcomes.extend(ladder_jobs.par_iter().map(|j| confirmed(|n, x| run_ladder_job(j, n, x), nsteps)).collect::<Vec<_>>());
     let n_runs = outcomes.len();
